@@ -50,8 +50,10 @@ impl World for SeqVsPar {
     }
     fn generate(&self, run_seed: u64, tier: Tier) -> SvpCase {
         let mut g = rng::stream(run_seed, "workload");
-        let kind = *g.pick(&SHIPPED);
-        let opts = GenOpts { penalty: g.chance(0.3), max_iters: tier.pick(6, 15), evaluations_term: true, log: true };
+        // C08 compares the shipped templates; the step monitors of C05/C06 also see the harness
+        // assemblies (archives, operator variants, prepared mixed populations)
+        let kind = if self.prop == "C08" || self.prop == "C16" { *g.pick(&SHIPPED) } else { *g.pick(&crate::checks::tworld::all_kinds()) };
+        let opts = GenOpts { penalty: g.chance(0.3), max_iters: tier.pick(6, 15), evaluations_term: self.prop != "C16", log: true };
         let case = gen_case(&mut g, kind, &opts);
         let mut sg = rng::stream(run_seed, "schedule");
         let n = tier.pick(3, 8);
@@ -118,6 +120,13 @@ impl World for SeqVsPar {
                 }
             } else if let Some((_, v)) = par.violations.iter().find(|(p, _)| *p == self.prop) {
                 out.violation = Some((Violation::new(format!("parallel {}", v.class), format!("with {s:?} (schedule #{hash:x}): {}", v.message)), one(c)));
+                return out;
+            } else if let (RunResult::Panic(p), false) = (&par.result, matches!(seq.result, RunResult::Panic(_))) {
+                // a panic inside the simulated pool never reaches the run's own monitors
+                out.violation = Some((
+                    Violation::new(format!("parallel run-panicked template={}", case.kind.name()), format!("{} with {s:?} (schedule #{hash:x}): the run with the parallel evaluator panicked ({p}); the sequential run with the same seed did not", case.kind.name())),
+                    one(c),
+                ));
                 return out;
             }
         }
